@@ -3,7 +3,7 @@ use std::rc::Rc;
 
 use super::super::{ArrayData, FuncData, ObjectData, ThunkData, ThunkEnv, ValueData, ir};
 use super::format::FormatPart;
-use super::{EvalResult, Evaluator, ManifestJsonFormat, TraceItem};
+use super::{EvalResult, Evaluator, ManifestJsonFormat, PendingThunk, TraceItem};
 use crate::ast;
 use crate::gc::{Gc, GcView};
 use crate::interner::InternedStr;
@@ -19,7 +19,7 @@ pub(super) enum State<'a, 'p> {
     DelayedTraceItem,
     DiscardValue,
     DoThunk(GcView<ThunkData<'p>>),
-    GotThunk(GcView<ThunkData<'p>>),
+    GotThunk(GcView<ThunkData<'p>>, PendingThunk<'p>),
     DeepValue,
     SwapLastValues,
     CoerceToString,
